@@ -196,6 +196,30 @@ func runCase(ex Executor, d *Drv, ops []Op, st *Stats, canon func(string) string
 					}
 				}
 			}
+			if !isS && cl == nil {
+				// a fidelity-level difference (e.g. in the raw slots); the same cause may show at
+				// property level further on: keep running both sides and prefer a later divergence
+				// on an op the property speaks about — that one is a concrete failing input
+				for j := i + 1; j < len(ops); j++ {
+					r2 := ex.Exec(ops[j].Line)
+					if strings.HasPrefix(r2, "skip") {
+						break
+					}
+					ml := ops[j].Line
+					if k := strings.LastIndex(r2, " @now="); k >= 0 {
+						ml += " now=" + r2[k+6:]
+						r2 = r2[:k]
+					}
+					if k := strings.LastIndex(r2, " @append="); k >= 0 {
+						ml += " " + r2[k+9:]
+						r2 = r2[:k]
+					}
+					i2, m2 := canon(r2), canon(d.Ask(ml))
+					if i2 != m2 && ops[j].S {
+						return &Divergence{j, ops[j], i2, m2, true, ml}
+					}
+				}
+			}
 			return &Divergence{i, op, io, mo, isS, mline}
 		}
 	}
